@@ -3,7 +3,7 @@
    the current source text of the package, re-checked on every run. *)
 From Coq Require Import List ZArith Bool Arith String.
 Import ListNotations.
-Require Import C14.Types C14.gen.Ctors C14.Model C14.Wf C14.AllocPolicy C14.gen.AllocSites.
+Require Import C14.Types C14.gen.Ctors C14.Model C14.Wf C14.AllocPolicy C14.gen.AllocSites C14.gen.Overrides.
 
 (* ---- allocation sites *)
 Definition site_pass (s : site) : bool := site_ok s || is_known_untyped s.
@@ -52,4 +52,47 @@ Proof.
   assert (Hk : In k (lossy_params c)) by (rewrite E; now left).
   pose proof (lossy_params_listed c k Hc Hk) as H. simpl in H.
   apply Hn. simpl. repeat destruct H as [H|H]; try (inversion H; subst; tauto); tauto.
+Qed.
+
+(* ---- overrides of the copy / conversion / representation methods (gen/Overrides.v, from the imported classes) *)
+Open Scope string_scope.
+(* what Model.v transcribes class by class (to / type / dtype), XX
+   representation*), what only matters off the CPU (device), and evaluate_kernel of the AddedDiag family (goes through
+   __add__: compared by the direct predicates only) *)
+Definition modelled_overrides : list (cls * string) :=
+  [ (CIdentity, "to"); (CIdentity, "type"); (CIdentity, "dtype"); (CIdentity, "device");
+    (CZero, "dtype"); (CZero, "device");
+    (CKronAddedDiag, "evaluate_kernel"); (CAddedDiag, "evaluate_kernel"); (CLowRankRootAddedDiag, "evaluate_kernel");
+    (CMul, "representation"); (CMul, "representation_tree");
+    (CCat, "to"); (CCat, "device"); (CInterpolated, "to"); (CMasked, "to");
+    (CPermutation, "dtype"); (CTransposePermutation, "type"); (CTransposePermutation, "dtype");
+    (CTransposePermutation, "device") ].
+(* overrides that the repairs of listed findings add (proposed_fixes/C14-zero-dtype-lost, C14-perm-to-float-raises) *)
+Definition repair_overrides : list (cls * string) := [ (CZero, "to"); (CZero, "type"); (CPermutation, "to") ].
+(* the overrides Model.meth_call / dtype_of rely on: they must still be there *)
+Definition required_overrides : list (cls * string) :=
+  [ (CIdentity, "to"); (CIdentity, "type"); (CIdentity, "dtype"); (CZero, "dtype"); (CCat, "to"); (CInterpolated, "to");
+    (CMasked, "to"); (CPermutation, "dtype"); (CTransposePermutation, "type"); (CTransposePermutation, "dtype") ].
+
+Definition cs_eqb (a b : cls * string) : bool := cls_eqb (fst a) (fst b) && String.eqb (snd a) (snd b).
+Definition cs_mem (p : cls * string) (l : list (cls * string)) : bool := existsb (cs_eqb p) l.
+
+Lemma overrides_checked :
+  forallb (fun p => cs_mem p (modelled_overrides ++ repair_overrides)) overrides = true /\
+  forallb (fun p => cs_mem p overrides) required_overrides = true.
+Proof. vm_compute. split; reflexivity. Qed.
+
+Lemma cs_mem_in p l : cs_mem p l = true -> In p l.
+Proof.
+  unfold cs_mem. intros H. apply existsb_exists in H as [[c m] [Hl He]]. unfold cs_eqb in He. simpl in He.
+  apply andb_prop in He as [E1 E2]. apply cls_eqb_eq in E1. apply String.eqb_eq in E2. destruct p. simpl in *. subst. exact Hl.
+Qed.
+
+Lemma overrides_modelled : forall c m, In (c, m) overrides -> In (c, m) (modelled_overrides ++ repair_overrides).
+Proof.
+  intros c m H. destruct overrides_checked as [A _]. rewrite forallb_forall in A. apply cs_mem_in. exact (A _ H).
+Qed.
+Lemma overrides_required : forall p, In p required_overrides -> In p overrides.
+Proof.
+  intros p H. destruct overrides_checked as [_ B]. rewrite forallb_forall in B. apply cs_mem_in. exact (B _ H).
 Qed.
